@@ -1,4 +1,4 @@
-import Lp.Py
+import Lp.CanonDefs
 /-! Prototype: byte-level model of taste's default validation of one level. -/
 namespace Taste
 open Py
@@ -39,11 +39,8 @@ def bcast (lo hi : List Int) : List (Int × Int) :=
 
 def Hdr.nbytes (h : Hdr) : Int := ((bcast h.lo h.hi).foldl (fun acc p => acc * (p.2 - p.1 + 1)) 1) * h.nf * 8
 
-/-- utils.header_from_indices -/
-def canonHeader (lo hi : List Int) (nf : Nat) : Bytes :=
-  let js (l : List Int) := ",".intercalate (l.map toString)
-  ofString ("FAB ((8, (64 11 52 0 1 12 0 1023)),(8, (8 7 6 5 4 3 2 1)))((" ++ js lo ++ ") (" ++ js hi ++ ") ("
-    ++ ",".intercalate (hi.map fun _ => "0") ++ ")) " ++ toString nf ++ "\n")
+/-- utils.header_from_indices (byte-level printer, see CanonDefs) -/
+def canonHeader (lo hi : List Int) (nf : Nat) : Bytes := canonB lo hi nf
 
 structure Entry where
   lo : List Int
